@@ -1332,20 +1332,80 @@ func (ev *Event) Serialize() ([]byte, error) {
 		return nil, errors.New("nil event")
 	}
 
-	v := [6]any{
-		0,
-		ev.Pubkey,
-		ev.CreatedAt,
-		ev.Kind,
-		ev.Tags,
-		ev.Content,
+	ret := make([]byte, 0, 128+len(ev.Content))
+
+	ret = append(ret, "[0,"...)
+	ret = appendSerializedString(ret, ev.Pubkey)
+	ret = append(ret, ',')
+	ret = strconv.AppendInt(ret, ev.CreatedAt, 10)
+	ret = append(ret, ',')
+	ret = strconv.AppendInt(ret, ev.Kind, 10)
+	ret = append(ret, ',')
+
+	if ev.Tags == nil {
+		ret = append(ret, nullJSON...)
+	} else {
+		ret = append(ret, '[')
+		for i, tag := range ev.Tags {
+			if i > 0 {
+				ret = append(ret, ',')
+			}
+			if tag == nil {
+				ret = append(ret, nullJSON...)
+				continue
+			}
+			ret = append(ret, '[')
+			for j, elem := range tag {
+				if j > 0 {
+					ret = append(ret, ',')
+				}
+				ret = appendSerializedString(ret, elem)
+			}
+			ret = append(ret, ']')
+		}
+		ret = append(ret, ']')
 	}
 
-	ret, err := json.Marshal(&v)
-	if err != nil {
-		return nil, fmt.Errorf("failed to marshal event: %w", err)
-	}
+	ret = append(ret, ',')
+	ret = appendSerializedString(ret, ev.Content)
+	ret = append(ret, ']')
+
 	return ret, nil
+}
+
+// appendSerializedString appends s as a JSON string escaped as NIP-01 specifies:
+// only \n, \", \\, \r, \t, \b and \f are escaped with two characters, the other
+// control characters below 0x20 as \u00xx, and everything else is copied as is.
+// (encoding/json also escapes <, >, &, U+2028 and U+2029, which changes the id.)
+func appendSerializedString(dst []byte, s string) []byte {
+	const hexDigits = "0123456789abcdef"
+
+	dst = append(dst, '"')
+	for i := 0; i < len(s); i++ {
+		switch c := s[i]; c {
+		case '"':
+			dst = append(dst, '\\', '"')
+		case '\\':
+			dst = append(dst, '\\', '\\')
+		case '\n':
+			dst = append(dst, '\\', 'n')
+		case '\r':
+			dst = append(dst, '\\', 'r')
+		case '\t':
+			dst = append(dst, '\\', 't')
+		case '\b':
+			dst = append(dst, '\\', 'b')
+		case '\f':
+			dst = append(dst, '\\', 'f')
+		default:
+			if c < 0x20 {
+				dst = append(dst, '\\', 'u', '0', '0', hexDigits[c>>4], hexDigits[c&0xf])
+			} else {
+				dst = append(dst, c)
+			}
+		}
+	}
+	return append(dst, '"')
 }
 
 func (ev *Event) Verify() (bool, error) {
